@@ -117,6 +117,7 @@ prop('C08',
 prop('C10',
      title='RFC 3339 output is conformant and input acceptance is exact',
      kani=['vk_fmt_rfc3339_secs', 'vk_fmt_offset'],
+     twin=['fmt'],
      uncovered=['acceptance of exactly the RFC 3339 grammar by parse_rfc3339 over all strings (hand-written &str scanner: no contract within reach)',
                 'fractional-second renderings Millis/Micros/Nanos/AutoSi (go through core::fmt write!)', 'years outside 0..=9999 (core::fmt path)',
                 'to_rfc3339 / to_rfc3339_opts String wrappers around write_rfc3339'],
@@ -127,6 +128,7 @@ prop('C10',
 prop('C12',
      title='Every strftime specifier renders the documented field',
      kani=['vk_fmt_numeric_years', 'vk_fmt_numeric_iso_years', 'vk_fmt_numeric_month_day', 'vk_fmt_numeric_weeks', 'vk_fmt_numeric_isoweek', 'vk_fmt_numeric_time', 'vk_fmt_offset'],
+     twin=['fmt'],
      uncovered=['%Y %G %j %f %s and fraction specifiers (core::fmt write!)', '%C / ISO century outside 0..=99 (core::fmt path)', 'weekday/month names and locales', 'composite specifiers and the StrftimeItems format-string parser',
                 'literal copying'],
      text='Kernel only. Kani proves DelayedFormat::format_numeric for the items that avoid core::fmt (%C %y %g %m %d %e %U %W %V %q %w %u %H %k %I %l %M %S) x Pad::{None,Zero,Space} '
